@@ -9,7 +9,7 @@
    the configuration and the two rule maps; `g_with_cfg g c` swaps the configuration. *)
 From Coq Require Import List NArith Bool Permutation.
 Require Import Base Tables_rules.
-Require Import LintGroupCfg LintGroupCfgProofs LintGroupCfgJson.
+Require Import LintGroupCfg LintGroupCfgProofs LintGroupCfgJson C11History.
 Import ListNotations.
 
 (* ---- the dispatch ---- *)
@@ -290,35 +290,62 @@ Check C11_overlay_curated : forall (u : config) (k : key) (dflt : bool), wf u ->
   is_rule_enabled (fill_with_curated curated_cfg u) k = match get k u with Some (Some b) => b | _ => dflt end.
 Print Assumptions C11_overlay_curated.
 
-(* harper-wasm keeps ONE configuration for the life of the Linter: it starts as clear(curated), every
-   set_lint_config_from_json/_object merges the given object into it, and lint overlays the curated
-   defaults.  Over a history of settings objects the switch k is the last explicit true/false given to it,
-   else the curated value; a later null does not take an explicit choice back *)
-Theorem C11_wasm_history : forall (cur : config) (us : list config) (k : key), wf cur -> Forall wf us ->
-  get k (fill_with_curated cur (merge_seq (clear cur) us))
-  = match last_explicit k us with Some v => Some (Some v) | None => get k cur end.
-Proof. exact wasm_history. Qed.
-Check C11_wasm_history : forall (cur : config) (us : list config) (k : key), wf cur -> Forall wf us ->
-  get k (fill_with_curated cur (merge_seq (clear cur) us))
-  = match last_explicit k us with Some v => Some (Some v) | None => get k cur end.
+(* harper-wasm keeps ONE configuration for the life of the Linter: it starts as clear(curated); every
+   set_lint_config_from_json/_object clears it and merges the given object into it (wasm_set_config, code since
+   b67a243); lint overlays the curated defaults.  After ANY history us ++ [u] of settings objects: (1) the
+   overlaid configuration lint runs under is exactly that of the last object alone; (2) so a switch is u's
+   explicit choice, else the curated value — a null or absent entry takes an earlier choice back; (3) a Linter
+   never configured lints under the curated configuration; (4) set(get()) is the identity; (5) the stored
+   configuration keeps listing every curated rule *)
+Theorem C11_wasm_history : forall (cur : config) (us : list config) (u : config) (k : key),
+  wf cur -> Forall wf us -> wf u ->
+  fill_with_curated cur (wasm_seq (clear cur) (us ++ [u])) = fill_with_curated cur u /\
+  (get k (fill_with_curated cur (wasm_seq (clear cur) (us ++ [u])))
+    = match get k u with Some (Some v) => Some (Some v) | _ => get k cur end) /\
+  fill_with_curated cur (wasm_seq (clear cur) []) = cur /\
+  fst (wasm_set_config (wasm_seq (clear cur) us) (wasm_seq (clear cur) us)) = wasm_seq (clear cur) us /\
+  (contains_key k cur = true -> contains_key k (wasm_seq (clear cur) (us ++ [u])) = true).
+Proof. exact wasm_history_spec. Qed.
+Check C11_wasm_history : forall (cur : config) (us : list config) (u : config) (k : key),
+  wf cur -> Forall wf us -> wf u ->
+  fill_with_curated cur (wasm_seq (clear cur) (us ++ [u])) = fill_with_curated cur u /\
+  (get k (fill_with_curated cur (wasm_seq (clear cur) (us ++ [u])))
+    = match get k u with Some (Some v) => Some (Some v) | _ => get k cur end) /\
+  fill_with_curated cur (wasm_seq (clear cur) []) = cur /\
+  fst (wasm_set_config (wasm_seq (clear cur) us) (wasm_seq (clear cur) us)) = wasm_seq (clear cur) us /\
+  (contains_key k cur = true -> contains_key k (wasm_seq (clear cur) (us ++ [u])) = true).
 Print Assumptions C11_wasm_history.
 
-(* FINDING FC11a (known/C11.json, fixes/FC11a.diff).  "Rules the user has not mentioned take
-   their curated defaults when a user configuration is overlaid": for the configuration u2 that is
-   fill_with_curated curated u2.  harper-wasm instead lints under the merged history (C11_wasm_history), and
-   the two differ: SpellCheck switched off by u1 and left null by u2 stays off *)
-Theorem C11_wasm_null_reset_refuted :
+(* ... over the GENERATED rule table: every real rule is what the LAST settings object says, else its real
+   default.  This is the statement finding FC11a refuted before the fix *)
+Theorem C11_wasm_history_curated : forall (us : list config) (u : config) (k : key) (dflt : bool), wf u ->
+  In (k, dflt) (curated_struct_rules ++ curated_pattern_rules) ->
+  is_rule_enabled (fill_with_curated curated_cfg (wasm_seq (clear curated_cfg) (us ++ [u]))) k
+  = match get k u with Some (Some b) => b | _ => dflt end.
+Proof. exact wasm_history_curated. Qed.
+Check C11_wasm_history_curated : forall (us : list config) (u : config) (k : key) (dflt : bool), wf u ->
+  In (k, dflt) (curated_struct_rules ++ curated_pattern_rules) ->
+  is_rule_enabled (fill_with_curated curated_cfg (wasm_seq (clear curated_cfg) (us ++ [u]))) k
+  = match get k u with Some (Some b) => b | _ => dflt end.
+Print Assumptions C11_wasm_history_curated.
+
+(* HISTORY, not the current code (History/C11History.v): before b67a243 the Linter merged without clearing
+   (wasm_seq_old): SpellCheck switched off by u1 and left null by u2 stayed off — finding FC11a, fixed; the
+   same history under the current model gives the curated default *)
+Theorem C11_wasm_null_reset_old_refuted :
   exists (u1 u2 : config) (k : key),
     wf u1 /\ wf u2 /\ get k u2 = Some None /\
     is_rule_enabled (fill_with_curated curated_cfg u2) k = true /\
-    is_rule_enabled (fill_with_curated curated_cfg (merge_seq (clear curated_cfg) [u1; u2])) k = false.
-Proof. exact wasm_null_does_not_reset. Qed.
-Check C11_wasm_null_reset_refuted :
+    is_rule_enabled (fill_with_curated curated_cfg (wasm_seq_old (clear curated_cfg) [u1; u2])) k = false /\
+    is_rule_enabled (fill_with_curated curated_cfg (wasm_seq (clear curated_cfg) [u1; u2])) k = true.
+Proof. exact wasm_null_reset_old_refuted. Qed.
+Check C11_wasm_null_reset_old_refuted :
   exists (u1 u2 : config) (k : key),
     wf u1 /\ wf u2 /\ get k u2 = Some None /\
     is_rule_enabled (fill_with_curated curated_cfg u2) k = true /\
-    is_rule_enabled (fill_with_curated curated_cfg (merge_seq (clear curated_cfg) [u1; u2])) k = false.
-Print Assumptions C11_wasm_null_reset_refuted.
+    is_rule_enabled (fill_with_curated curated_cfg (wasm_seq_old (clear curated_cfg) [u1; u2])) k = false /\
+    is_rule_enabled (fill_with_curated curated_cfg (wasm_seq (clear curated_cfg) [u1; u2])) k = true.
+Print Assumptions C11_wasm_null_reset_old_refuted.
 
 (* the generated table is what the theorems assume of it: both rule maps and the curated config are
    BTreeMaps, every curated value is explicit, a name listed in both maps carries one default, every
